@@ -153,7 +153,8 @@ Lemma readPtr_inv strict (ms : segs) rl sid s off depth p rl' dsid dst base val 
      p = mkPtr true (p_seg sp) (p_off sp) 0 (p_size sp) (uint_dec depth) KStruct false false false) \/
   (pointerType val = listPointer /\ exists lp, readListPtr strict dsid dst base val = Ok lp /\
      p = mkPtr true (p_seg lp) (p_off lp) (p_len lp) (p_size lp) (uint_dec depth) KList (p_comp lp) (p_bit lp) false) \/
-  (pointerType val = otherPointer).
+  (pointerType val = otherPointer /\ otherPointerType val = 0 /\
+   p = mkPtr true dsid 0 (capabilityIndex val) (mkOS 0 0) 0 KIface false false false).
 Proof.
   intros R Hv0 HR. unfold readPtr in HR. rewrite R, Hv0 in HR.
   destruct (depth =? 0); [discriminate|]. cbv zeta in HR.
@@ -165,7 +166,9 @@ Proof.
     + right. left. split; [lia|]. destruct (readListPtr strict dsid dst base val) as [lp| |]; try discriminate.
       exists lp. split; [reflexivity|]. destruct (canRead rl (list_readSize lp)) as [ok rl1]. destruct ok; [|discriminate].
       apply (f_equal fst) in HR. cbn [fst] in HR. apply Ok_inj in HR. auto.
-    + right. right. destruct (pointerType val =? otherPointer) eqn:EO; [lia|discriminate].
+    + right. right. destruct (pointerType val =? otherPointer) eqn:EO; [|discriminate].
+      destruct (negb (otherPointerType val =? 0)) eqn:E0; [discriminate|].
+      apply (f_equal fst) in HR. cbn [fst] in HR. apply Ok_inj in HR. split; [lia|]. split; [lia|auto].
 Qed.
 
 Lemma read_resolved_obj strict (ms : segs) rl sid off h raw depth p rl' :
@@ -185,7 +188,7 @@ Proof.
     assert (Hv0 : (val =? 0) = false).
     { destruct (val =? 0) eqn:E; auto. assert (val = 0) by lia. subst val.
       rewrite Rs in Vs. rewrite <- Vs in Hnz. cbv in Hnz. discriminate. }
-    destruct (readPtr_inv _ _ _ _ _ _ _ _ _ _ _ _ _ (R strict) Hv0 HR) as [(_ & sp & ES & ->)|[(X & _)|X]];
+    destruct (readPtr_inv _ _ _ _ _ _ _ _ _ _ _ _ _ (R strict) Hv0 HR) as [(_ & sp & ES & ->)|[(X & _)|(X & _)]];
       try (rewrite Vt, Rt in X; discriminate X).
     destruct (readStructPtr_inv _ _ _ _ _ ES) as (addr & EA & ->). rewrite Ve in EA. apply (f_equal (fun o => match o with Some x => x | None => 0 end)) in EA.
     subst addr. cbn [p_seg p_off p_size]. rewrite Vs, Rs. unfold obj_start. rewrite Hc, Hl, Hb. reflexivity.
@@ -222,7 +225,7 @@ Proof.
       assert (Hv0 : (val =? 0) = false).
       { destruct (val =? 0) eqn:E; auto. assert (val = 0) by lia. subst val. rewrite Rt in Vt. cbv in Vt. discriminate. }
       assert (HE : elementSize val = elementSize raw) by (unfold elementSize; now rewrite Vl).
-      destruct (readPtr_inv _ _ _ _ _ _ _ _ _ _ _ _ _ (R strict) Hv0 HR) as [(X & _)|[(_ & lp & EL & ->)|X]];
+      destruct (readPtr_inv _ _ _ _ _ _ _ _ _ _ _ _ _ (R strict) Hv0 HR) as [(X & _)|[(_ & lp & EL & ->)|(X & _)]];
         try (rewrite Vt, Rt in X; discriminate X).
       destruct (readListPtr_inv _ _ _ _ _ _ EL) as (addr & EA & D). rewrite Ve in EA.
       apply (f_equal (fun o => match o with Some x => x | None => 0 end)) in EA. subst addr.
@@ -248,7 +251,7 @@ Proof.
       rewrite Etag in Et'. assert (tag' = tag) by congruence. subst tag'.
       assert (Hv0 : (val =? 0) = false).
       { destruct (val =? 0) eqn:E; auto. assert (val = 0) by lia. subst val. rewrite Rt in Vt. cbv in Vt. discriminate. }
-      destruct (readPtr_inv _ _ _ _ _ _ _ _ _ _ _ _ _ (R strict) Hv0 HR) as [(X & _)|[(_ & lp & EL & ->)|X]];
+      destruct (readPtr_inv _ _ _ _ _ _ _ _ _ _ _ _ _ (R strict) Hv0 HR) as [(X & _)|[(_ & lp & EL & ->)|(X & _)]];
         try (rewrite Vt, Rt in X; discriminate X).
       destruct (readListPtr_inv _ _ _ _ _ _ EL) as (addr & EA & D). rewrite Ve in EA.
       apply (f_equal (fun o => match o with Some x => x | None => 0 end)) in EA. subst addr.
@@ -271,29 +274,39 @@ Definition empty_handle (q : Z * Z) (depth : Z) : Ptr :=
 Theorem read_slot strict m objs pads q rl depth p rl' :
   hinv m objs pads -> In q ((0, 0) :: flat_map slots objs) ->
   readPtr strict (bm_data m) rl (fst q) (nth (Z.to_nat (fst q)) (bm_data m) []) (snd q) depth = (Ok p, rl') ->
-  p = nullPtr \/ p = empty_handle q depth \/ exists h, In h objs /\ p = handle_of h depth.
+  p = nullPtr \/ p = empty_handle q depth \/ (exists h, In h objs /\ p = handle_of h depth) \/
+  (exists idx, 0 <= idx < 4294967296 /\ p = mkPtr true (fst q) 0 idx (mkOS 0 0) 0 KIface false false false).
 Proof.
   intros H Hq HR. destruct (slot_geometry _ _ _ _ H Hq) as (Q1 & Q2 & Q3 & Q4 & _).
   pose proof (hi_small _ _ _ H (fst q)) as Hsq. unfold maxSegmentSize in Hsq.
-  assert (Near : forall w, word_at (bm_data m) (fst q) (snd q) = Some w -> w mod 4 = 0 ->
+  assert (Near : forall w, word_at (bm_data m) (fst q) (snd q) = Some w -> w mod 4 = 0 \/ w mod 4 = 3 ->
             forall st, resolveFarPointer st (bm_data m) (fst q) (nth (Z.to_nat (fst q)) (bm_data m) []) (snd q) =
                        Ok (fst q, nth (Z.to_nat (fst q)) (bm_data m) [], snd q + 8, w)).
   { intros w W Hw st. unfold resolveFarPointer. rewrite (read_of_word_at _ _ _ _ W) by lia. cbn [bind]. cbv zeta.
-    assert (PT : pointerType w = 0) by (unfold pointerType; cbv zeta; rewrite Hw; reflexivity). rewrite PT.
-    change (0 =? doubleFarPointer) with false. change (0 =? farPointer) with false. cbv iota.
+    assert (PT : pointerType w = 0 \/ pointerType w = 3) by (unfold pointerType; cbv zeta; destruct Hw as [-> | ->]; auto).
+    assert (PD : (pointerType w =? doubleFarPointer) = false) by (unfold doubleFarPointer; lia).
+    assert (PF : (pointerType w =? farPointer) = false) by (unfold farPointer; lia).
+    rewrite PD, PF.
     unfold addSize. cbv zeta. destruct (snd q + 8 >? maxSegmentSize) eqn:E; [unfold maxSegmentSize in E; lia|]. reflexivity. }
-  destruct (hi_slots _ _ _ H q Hq) as [S|[S|(h & ps & raw & oldlen & Hh & Ips & Er & Hnz & Pl)]].
-  - left. unfold readPtr in HR. rewrite (Near 0 S eq_refl strict) in HR. cbn in HR.
+  destruct (hi_slots _ _ _ H q Hq) as [S|[S|[(h & ps & raw & oldlen & Hh & Ips & Er & Hnz & Pl)|(idx & Hi & S)]]].
+  4:{ right. right. right. exists idx. split; [exact Hi|].
+      destruct (interface_pointer_roundtrip idx Hi) as (I1 & I2 & I3 & I4). cbv zeta in *.
+      assert (Hm : rawInterfacePointer idx mod 4 = 3) by (rewrite rawInterfacePointer_sum by assumption; lia).
+      assert (Hv0 : (rawInterfacePointer idx =? 0) = false) by (rewrite rawInterfacePointer_sum by assumption; lia).
+      destruct (readPtr_inv _ _ _ _ _ _ _ _ _ _ _ _ _ (Near _ S (or_intror Hm) strict) Hv0 HR) as [(X & _)|[(X & _)|(_ & _ & ->)]];
+        try (rewrite I2 in X; discriminate X).
+      rewrite I4. reflexivity. }
+  - left. unfold readPtr in HR. rewrite (Near 0 S (or_introl eq_refl) strict) in HR. cbn in HR.
     apply (f_equal fst) in HR. cbn [fst] in HR. apply Ok_inj in HR. auto.
   - right. left.
     assert (Hv0 : (empty_struct_word =? 0) = false) by reflexivity.
-    destruct (readPtr_inv _ _ _ _ _ _ _ _ _ _ _ _ _ (Near _ S eq_refl strict) Hv0 HR) as [(_ & sp & ES & ->)|[(X & _)|X]];
+    destruct (readPtr_inv _ _ _ _ _ _ _ _ _ _ _ _ _ (Near _ S (or_introl eq_refl) strict) Hv0 HR) as [(_ & sp & ES & ->)|[(X & _)|(X & _)]];
       try (cbv in X; discriminate X).
     destruct (readStructPtr_inv _ _ _ _ _ ES) as (addr & EA & ->).
     change (ptr_offset empty_struct_word) with (-1) in EA. apply element_spec in EA. destruct EA as [-> _].
     change (structSize empty_struct_word) with (mkOS 0 0). unfold empty_handle. cbn [p_seg p_off p_size].
     replace (snd q + 8 + -1 * 8) with (snd q) by lia. reflexivity.
-  - right. right. exists h. split; [exact Hh|].
+  - right. right. left. exists h. split; [exact Hh|].
     destruct (hi_good _ _ _ H h Hh) as [V G]. pose proof (hi_tags _ _ _ H h Hh) as T.
     destruct (obj_decode (bm_data m) h V G T Hnz) as (raw' & Er' & Rw & _). rewrite Er in Er'. apply Ok_inj in Er'. subst raw'.
     pose proof G as (_ & Gs & Gi & Go). destruct (in_seg_elim _ _ _ _ Gi) as (T1 & T2 & T3 & T4 & T5).
